@@ -1252,6 +1252,8 @@ class DiskRefsContainer(RefsContainer):
         self._check_refname(name)
         self._check_refname(other)
         filename = self.refpath(name)
+        # The directory may be gone: deleting the last ref in it removes it.
+        ensure_dir_exists(os.path.dirname(filename))
         f = GitFile(filename, "wb")
         try:
             f.write(SYMREF + other + b"\n")
